@@ -7,7 +7,7 @@ From ZV Require Import Recover.Consts Recover.Path Recover.ProofsWal Recover.Pro
 Import ListNotations.
 Open Scope N_scope.
 
-Lemma inv_step : forall c s ev s', fixed c -> Inv c s -> single_window s -> step c s ev = Ok s' -> Inv c s'.
+Lemma inv_step : forall c s ev s', fixed c -> Inv c s -> window_ok c s -> step c s ev = Ok s' -> Inv c s'.
 Proof.
   intros c s ev s' Hfx HI SW H. destruct ev.
   - eapply step_rd_begin; eauto.
@@ -50,12 +50,12 @@ Proof.
   - eapply step_rc_replay; eauto.
 Qed.
 
-(* the schedule hypothesis along a run: in every state that is left by a step, at most one snapshot
-   goroutine is between "snap file written" and "WAL marker written" *)
+(* the schedule hypothesis along a run: in every state that is left by a step, fewer snapshot goroutines than
+   snap files the purge keeps (>= 2) are between "snap file written" and "WAL marker written" *)
 Fixpoint sched_ok (c : config) (s : state) (evs : list event) : Prop :=
   match evs with
   | [] => True
-  | e :: t => single_window s /\ match step c s e with Ok s' => sched_ok c s' t | Err _ => True end
+  | e :: t => window_ok c s /\ match step c s e with Ok s' => sched_ok c s' t | Err _ => True end
   end.
 
 Lemma inv_run : forall c evs s s', fixed c -> Inv c s -> sched_ok c s evs -> run c s evs = Ok s' -> Inv c s'.
@@ -132,46 +132,17 @@ Qed.
 
 (* ---------- a computable form of the schedule hypothesis (for examples) ---------- *)
 
-Definition win_count (l : list (N * sn_pc)) : nat := length (filter (fun q => sn_pc_eqb (snd q) SnFile) l).
-
-Lemma sn_lookup_in : forall i p l, sn_lookup i l = Some p -> In (i, p) l.
-Proof.
-  induction l as [|[j q] t IH]; simpl; intros H; [discriminate|].
-  destruct (i =? j) eqn:E; [injection H as <-; apply N.eqb_eq in E; subst; left; reflexivity | right; auto].
-Qed.
-
-Lemma win_count_single : forall l i1 i2, (win_count l <= 1)%nat -> In (i1, SnFile) l -> In (i2, SnFile) l -> i1 = i2.
-Proof.
-  induction l as [|[j q] t IH]; intros i1 i2 Hc H1 H2; [destruct H1|].
-  unfold win_count in *. simpl in Hc. destruct (sn_pc_eqb q SnFile) eqn:Q.
-  - simpl in Hc.
-    assert (Hnone : forall i, ~ In (i, SnFile) t).
-    { intros i Hi. assert (In (i, SnFile) (filter (fun q0 => sn_pc_eqb (snd q0) SnFile) t)) by (apply filter_In; split; auto).
-      destruct (filter (fun q0 => sn_pc_eqb (snd q0) SnFile) t); [destruct H | simpl in Hc; lia]. }
-    destruct H1 as [H1|H1]; [|exfalso; eapply Hnone; eauto].
-    destruct H2 as [H2|H2]; [|exfalso; eapply Hnone; eauto].
-    congruence.
-  - destruct H1 as [H1|H1]; [injection H1 as _ ->; discriminate|].
-    destruct H2 as [H2|H2]; [injection H2 as _ ->; discriminate|].
-    eapply IH; eauto.
-Qed.
-
-Lemma win_count_window : forall s, (win_count (sns s) <= 1)%nat -> single_window s.
-Proof.
-  intros s H i1 i2 L1 L2. apply sn_lookup_in in L1. apply sn_lookup_in in L2. eapply win_count_single; eauto.
-Qed.
-
 Fixpoint sched_okb (c : config) (s : state) (evs : list event) : bool :=
   match evs with
   | [] => true
-  | e :: t => Nat.leb (win_count (sns s)) 1 && match step c s e with Ok s' => sched_okb c s' t | Err _ => true end
+  | e :: t => Nat.ltb (win_count (sns s)) (eff_keep_snap c) && match step c s e with Ok s' => sched_okb c s' t | Err _ => true end
   end.
 
 Lemma sched_okb_ok : forall c evs s, sched_okb c s evs = true -> sched_ok c s evs.
 Proof.
   induction evs as [|e t IH]; intros s H; simpl in *; auto.
   apply andb_true_iff in H. destruct H as [H1 H2]. split.
-  - apply win_count_window. apply Nat.leb_le. exact H1.
+  - unfold window_ok. apply Nat.ltb_lt. exact H1.
   - destruct (step c s e); auto.
 Qed.
 
